@@ -128,6 +128,16 @@ def run_check(pid, tier, seed, PROPS, verbose=False):
     z3_ms, cvc5_ms = (15000, 60000) if tier == "quick" else (60000, 240000)
     eng, results, t_sym, t_solve = verify_contracts(reg, set(sel), repo, z3_ms, cvc5_ms)
     R = classify(results, pid)
+    extra = cfg['extra'](repo) if 'extra' in cfg else []       # solver-free obligations (frame scan)
+    for name, ok, detail in extra:
+        from .smt import Result, OblInfo
+        class _O:       # minimal obligation record
+            pass
+        o = _O()
+        o.name, o.kind, o.props, o.meta, o.func = name, 'P', (pid,), {'detail': detail}, 'frame-scan'
+        r = Result(o, 'unsat' if ok else 'sat', 'frame-scan', 0.0, {'site': detail} if not ok else None, 1)
+        results.append(r)
+        (R['discharged'] if ok else R['p_failed']).append(r)
     known = [k for k in load_known() if pid in k.get('properties', []) and k.get('status', 'open') == 'open']
     violations = []      # (description, replay text, cls)
     known_hits = {}
